@@ -716,11 +716,13 @@ class Laplace(_AbstractDistribution):
             or type(self.dispersions) == _numpy.float32
             or type(self.dispersions) == int
         ):
-            self.normalization_constant = _numpy.log(1.0 / (2.0 * self.dispersions))
-        elif self.dispersions.shape == (self.means.size, 1):
-            self.normalization_constant = _numpy.log(
-                1.0 / (2.0 * (_numpy.prod(self.dispersions) ** (1.0 / self.dimensions)))
+            # -log of the density's prefactor prod_i 1 / (2 b_i), all b_i equal
+            self.normalization_constant = self.dimensions * _numpy.log(
+                2.0 * self.dispersions
             )
+        elif self.dispersions.shape == (self.means.size, 1):
+            # -log of the density's prefactor prod_i 1 / (2 b_i)
+            self.normalization_constant = _numpy.sum(_numpy.log(2.0 * self.dispersions))
         else:
             raise ValueError("Covariance matrix shape not understood.")
 
